@@ -636,6 +636,54 @@ func RunPex(sw *Swarm, rng *rand.Rand) (tr *Tor, stats map[string]int) {
 				tr.T.Have(uint32(p), p%2 == 0) // a burst of have/dont-have fills the writer queue
 			}
 			stats["congest"]++
+		case x < 61:
+			// the PEX tick falls on an observer whose writer queue is exactly full (it has stopped reading), with an
+			// arrival to report; the observer then reads again and the newcomer leaves, comes back and leaves
+			o := obs[rng.IntN(len(obs))]
+			if o.Closed() || o.Stalled() {
+				break
+			}
+			if conn[i] != nil {
+				leave(i)
+				time.Sleep(125 * time.Second)
+				sw.Cut()
+			}
+			// the peer actor sends PEX at its 2-second ticks 2 s, 62 s, 122 s ... after it was started; storrent gives a
+			// connection up after a write has been blocked for a minute, so the observer stops reading 20 s before a tick
+			// and reads again 10 s after it
+			since := time.Since(o.Born) - 2*time.Second
+			next := (since/time.Minute + 1) * time.Minute
+			if next-since < 22*time.Second {
+				next += time.Minute
+			}
+			time.Sleep(next - since - 20*time.Second)
+			sw.Cut()
+			o.PauseReading(30 * time.Second)
+			time.Sleep(300 * time.Millisecond)
+			if !tr.FillWriter(o) {
+				break
+			}
+			join(i)
+			sw.Act("PEX tick due in %v with the writer queue to %s exactly full and an arrival pending", time.Until(o.Born.Add(next+2*time.Second)), o.Name)
+			time.Sleep(35 * time.Second) // the tick, then the observer reads again
+			sw.Cut()
+			if o.Closed() {
+				stats["pex_full_writer_observer_lost"]++
+				break
+			}
+			for k := 0; k < 2; k++ {
+				if conn[i] != nil {
+					leave(i)
+				}
+				time.Sleep(61 * time.Second)
+				sw.Cut()
+				if k == 0 {
+					join(i)
+					time.Sleep(61 * time.Second)
+					sw.Cut()
+				}
+			}
+			stats["pex_tick_with_full_writer"]++
 		default:
 			d := []time.Duration{time.Second, 20 * time.Second, 61 * time.Second, 61 * time.Second, 130 * time.Second}[rng.IntN(5)]
 			sw.Act("sleep %v", d)
